@@ -23,6 +23,7 @@ import (
 	ethclient "github.com/teleport-network/teleport/x/xibc/clients/light-clients/eth/types"
 	xibctmtypes "github.com/teleport-network/teleport/x/xibc/clients/light-clients/tendermint/types"
 	tsstypes "github.com/teleport-network/teleport/x/xibc/clients/tss-client/types"
+	xibcclient "github.com/teleport-network/teleport/x/xibc/core/client"
 	clienttypes "github.com/teleport-network/teleport/x/xibc/core/client/types"
 	commitmenttypes "github.com/teleport-network/teleport/x/xibc/core/commitment/types"
 	"github.com/teleport-network/teleport/x/xibc/core/host"
@@ -1275,11 +1276,23 @@ func (e *Env) opCreateClient(op Op) {
 	}
 	sender := c.tc.SenderAcc.String()
 	class := e.record(c, ActCreateClient{T: "create_client", Name: hs(name), Tss: true}, func() (int, string) {
+		// the governance path: CreateClientProposal -> ValidateBasic -> the client proposal handler
+		// (HandleCreateClient) on a branch of the state that is written back only on success, as the gov
+		// EndBlocker does for a passed proposal
 		c.dirty = true
-		err := c.tc.App.XIBCKeeper.ClientKeeper.CreateClient(c.ctx(), name, &tsstypes.ClientState{TssAddress: sender}, &tsstypes.ConsensusState{})
+		proposal, err := clienttypes.NewCreateClientProposal("create client", "harness", name,
+			&tsstypes.ClientState{TssAddress: sender}, &tsstypes.ConsensusState{})
 		if err != nil {
+			return 1, "harness: " + errText(err)
+		}
+		if err := proposal.ValidateBasic(); err != nil {
 			return 1, errText(err)
 		}
+		cctx, write := c.ctx().CacheContext()
+		if err := xibcclient.NewClientProposalHandler(c.tc.App.XIBCKeeper.ClientKeeper)(cctx, proposal); err != nil {
+			return 1, errText(err)
+		}
+		write()
 		return 0, ""
 	})
 	e.stat(fmt.Sprintf("create_client.class%d", class))
